@@ -271,7 +271,19 @@ def run_case(desc, ctx):
             adj[e[0]].add(e[1])
             adj[e[1]].add(e[0])
         ctx.cls("vertex_tree:%s%s" % ("avoid_boundary" if avoid_b else "", "+avoid_edges" if avoid else ""))
-        ok, tree = ctx.call("EdgeSpanningTree", lambda: T.EdgeSpanningTree(m, root, avoid_boundary=avoid_b, avoid_edges=avoid)(), monitor="tree", abort=False)
+        chosen_by_library = rng.random() < 0.15
+        if chosen_by_library:
+            # no root given: the library picks one; whatever it picks must be a vertex and the tree must be a tree of that root
+            ctx.cls("vertex_tree:root_chosen_by_library")
+            ok, tree = ctx.call("EdgeSpanningTree", lambda: T.EdgeSpanningTree(m, None, avoid_boundary=avoid_b, avoid_edges=avoid)(), monitor="tree", abort=False)
+            try:
+                root = int(tree.root)
+                assert 0 <= root < n
+            except Exception:
+                ctx.violation("tree", "vertex_tree", "library_chosen_root_is_not_an_element", "a tree built without a root does not report a valid root", root=getattr(tree, "root", None))
+                ok = False
+        else:
+            ok, tree = ctx.call("EdgeSpanningTree", lambda: T.EdgeSpanningTree(m, root, avoid_boundary=avoid_b, avoid_edges=avoid)(), monitor="tree", abort=False)
         if ok:
             reached = _check_tree(ctx, "vertex_tree", tree, n, adj, root)
             if reached is not None:
@@ -396,7 +408,17 @@ def run_case(desc, ctx):
                 fadj[fi].add(o[0])
             root = rng.randrange(nF)
             ctx.cls("face_tree:" + ("forbidden" if forb else "plain"))
-            ok, tree = ctx.call("FaceSpanningTree", lambda: T.FaceSpanningTree(m, root, forb)(), monitor="tree", abort=False)
+            if rng.random() < 0.15:
+                ctx.cls("face_tree:root_chosen_by_library")
+                ok, tree = ctx.call("FaceSpanningTree", lambda: T.FaceSpanningTree(m, None, forb)(), monitor="tree", abort=False)
+                try:
+                    root = int(tree.root)
+                    assert 0 <= root < nF
+                except Exception:
+                    ctx.violation("tree", "face_tree", "library_chosen_root_is_not_an_element", "a tree built without a root does not report a valid root", root=getattr(tree, "root", None))
+                    ok = False
+            else:
+                ok, tree = ctx.call("FaceSpanningTree", lambda: T.FaceSpanningTree(m, root, forb)(), monitor="tree", abort=False)
             if ok:
                 reached = _check_tree(ctx, "face_tree", tree, nF, fadj, root)
                 if reached is not None:
@@ -427,7 +449,17 @@ def run_case(desc, ctx):
                     cadj[cl[1]].add(cl[0])
             root = rng.randrange(nC)
             ctx.cls("cell_tree:" + ("forbidden" if forb else "plain"))
-            ok, tree = ctx.call("CellSpanningTree", lambda: T.CellSpanningTree(m, root, forb)(), monitor="tree", abort=False)
+            if rng.random() < 0.15:
+                ctx.cls("cell_tree:root_chosen_by_library")
+                ok, tree = ctx.call("CellSpanningTree", lambda: T.CellSpanningTree(m, None, forb)(), monitor="tree", abort=False)
+                try:
+                    root = int(tree.root)
+                    assert 0 <= root < nC
+                except Exception:
+                    ctx.violation("tree", "cell_tree", "library_chosen_root_is_not_an_element", "a tree built without a root does not report a valid root", root=getattr(tree, "root", None))
+                    ok = False
+            else:
+                ok, tree = ctx.call("CellSpanningTree", lambda: T.CellSpanningTree(m, root, forb)(), monitor="tree", abort=False)
             if ok:
                 reached = _check_tree(ctx, "cell_tree", tree, nC, cadj, root)
                 if reached is not None:
@@ -467,6 +499,14 @@ def _check_forest(ctx, kind, forest, n, adj):
         roots = [int(r) for r in forest.roots]
     except Exception:
         ctx.violation("forest", kind, "malformed_forest", "forest has no trees/roots lists")
+        return
+    try:
+        nt = int(forest.n_trees)
+        same = all(forest[i] is trees[i] for i in range(len(trees)))
+    except Exception:
+        nt, same = None, False
+    if nt != len(trees) or not same:
+        ctx.violation("forest", kind, "tree_count_or_indexing_inconsistent", "forest.n_trees / forest[i] do not agree with forest.trees", n_trees=nt, trees=len(trees))
         return
     if len(trees) != ncomp or len(roots) != ncomp:
         ctx.violation("forest", kind, "wrong_number_of_trees", "forest does not have exactly one tree per connected component", trees=len(trees), roots=len(roots), components=ncomp)
